@@ -323,16 +323,18 @@ Definition parse_head (ts : list token) : pres (head * list token) :=
 (* rule = (!"." ~ head ~ (":-" ~ body)?) ~ "."
    [guard_off]: the rule is the first of the text and the text starts with whitespace or a
    comment, so the `!"."` guard looked at that and not at the first token *)
+Definition parse_rule_core (ts : list token) : pres (rule * list token) :=
+  pbind (parse_head ts) (fun '(h, r) =>
+    pbind (match r with
+           | TkIf :: r1 => parse_body r1
+           | _ => POk ([], r)
+           end)
+          (fun '(b, r2) => match r2 with TkDot :: r3 => POk (mkrule h b, r3) | _ => PFail end)).
+
 Definition parse_rule (guard_off : bool) (ts : list token) : pres (rule * list token) :=
   match ts, guard_off with
-  | TkDot :: _, false => PFail
-  | _, _ =>
-    pbind (parse_head ts) (fun '(h, r) =>
-      pbind (match r with
-             | TkIf :: r1 => parse_body r1
-             | _ => POk ([], r)
-             end)
-            (fun '(b, r2) => match r2 with TkDot :: r3 => POk (mkrule h b, r3) | _ => PFail end))
+  | TkDot :: _, false => PFail          (* !"." *)
+  | _, _ => parse_rule_core ts
   end.
 
 (* program = rule*, then EOI *)
